@@ -7,5 +7,7 @@ CONSTANTS
   SubscribeLate = FALSE
   MaxAbandon = 0
   SilentAbandon = FALSE
+  RegisterLate = FALSE
+  MarkCallerOnly = FALSE
 PROPERTY Progress
 CHECK_DEADLOCK FALSE
